@@ -259,8 +259,35 @@ def brute_lmeasure(ref_seg, ref_lab, est_seg, est_lab, nfr):
     return prec, rec, f
 
 
-def job_lmeasure(size, fs, maxT):
-    b = T.b_hier(2, fs, maxT, labels='repeat')
+def frame_maps(A, hier, fs, nfr):
+    """per level: frame -> index of the segment that contains it (decided on the path), None outside every segment"""
+    lv_maps = []
+    for iv in hier:
+        m = []
+        for f in range(nfr):
+            found = None
+            for s in range(len(iv)):
+                if bool(A.And(A.xlt(iv[s, 0], (f + 1) * fs), A.xge(iv[s, 1], (f + 1) * fs))):
+                    found = s if found is None else found
+            m.append(found)
+        lv_maps.append(m)
+    return lv_maps
+
+
+def n_frames(A, hier, fs):
+    T_end = hier[0][len(hier[0]) - 1, 1]
+    nfr = 0
+    while bool(A.xle((nfr + 1) * fs, T_end)):
+        nfr += 1
+    return nfr
+
+
+def job_lmeasure(size, fs, maxT, counts=None):
+    if counts is not None:
+        b = T.b_hier_counts(counts[0], counts[1], fs, maxT, labels='repeat')
+        size = counts
+    else:
+        b = T.b_hier(2, fs, maxT, labels='repeat')
 
     def build(ctx):
         return b(ctx, size)
@@ -272,27 +299,12 @@ def job_lmeasure(size, fs, maxT):
         for nm, v in zip(('P', 'R', 'F'), res):
             A.observe(nm, v)
             A.require(A.in01(v), 'lmeasure.%s-in-[0,1]' % nm)
-        T_end = rh[0][0, 1]
-        nfr = 0
-        while bool(A.xle((nfr + 1) * fs, T_end)):
-            nfr += 1
-        segs = []
-        for hier in (rh, eh):
-            lv_maps = []
-            for iv in hier:
-                m = []
-                for f in range(nfr):
-                    found = None
-                    for s in range(len(iv)):
-                        if bool(A.And(A.xlt(iv[s, 0], (f + 1) * fs), A.xge(iv[s, 1], (f + 1) * fs))):
-                            found = s if found is None else found
-                    m.append(found)
-                lv_maps.append(m)
-            segs.append(lv_maps)
+        nfr = n_frames(A, rh, fs)
+        segs = [frame_maps(A, hier, fs, nfr) for hier in (rh, eh)]
         want = brute_lmeasure(segs[0], rl, segs[1], el, nfr)
         for nm, v, w in zip(('P', 'R', 'F'), res, want):
             A.require(A.eq(v, w), 'lmeasure.%s==label-agreement-triplet-definition' % nm, want=w)
-    return Job('C17', 'lmeasure[%s,fs=%s,T<=%s]' % ('x'.join(map(str, size)), fs, maxT), build, body,
+    return Job('C17', 'lmeasure[%s,fs=%s,T<=%s]' % ('x'.join(map(str, size)) if counts is None else 'levels ref %s est %s (not nec. nested)' % counts, fs, maxT), build, body,
                funcs=['hierarchy.lmeasure', 'hierarchy._meet', 'hierarchy._gauc'], bounds=dict(size=size, frame_size=fs), exact_floats=False, timeout_s=3000)
 
 
@@ -331,5 +343,8 @@ def jobs(tier):
         js.append(job_tmeasure(None, fs, maxT, w, tr, counts=counts))
     for c in ([((2, 2), 0.5, 2.0)] if q else [((2, 2), 0.5, 2.0), ((3, 2), 0.5, 2.0), ((2, 2), 0.25, 1.0), ((2, 3), 0.5, 3.0)]):
         js.append(job_lmeasure(*c))
+    # label-agreement depths that are not adjacent (two segments at the top level: frames that share only the deeper label)
+    for counts in ([((2, 2), (1, 2))] if q else [((2, 2), (1, 2)), ((2, 2), (2, 2)), ((2, 3), (1, 2)), ((1, 2, 2), (1, 2))]):
+        js.append(job_lmeasure(None, 0.5, 2.0, counts=counts))
     js.append(job_params())
     return js
